@@ -1,6 +1,9 @@
 package main
 
 import (
+	"sort"
+	"go/token"
+	"strconv"
 	"fmt"
 	"go/types"
 	"strings"
@@ -90,8 +93,25 @@ func (fx *FnExec) doCall(st *State, instr ssa.Instruction, c *ssa.CallCommon) []
 	// caller-side call-site clauses (the caller's locals are visible)
 	if fx.contract != nil {
 		for _, cs := range fx.contract.Callsites {
-			if !calleeMatches(key, cs.Callee) {
+			// "<callee>@N": only the N-th call site of that callee in this function (execution visits each
+			// call instruction once, in reverse post-order of the CFG, i.e. source order for structured code)
+			calleeName, wantOrd := cs.Callee, 0
+			if at := strings.LastIndex(calleeName, "@"); at > 0 {
+				if n, err := strconv.Atoi(calleeName[at+1:]); err == nil {
+					calleeName, wantOrd = calleeName[:at], n
+				}
+			}
+			if !calleeMatches(key, calleeName) {
 				continue
+			}
+			if wantOrd > 0 {
+				if fx.siteOrdinal(instr, calleeName) != wantOrd {
+					continue
+				}
+				n := wantOrd
+				if n != wantOrd {
+					continue
+				}
 			}
 			env := fx.specEnv(st, fx.entry, nil, true)
 			env.pos = instr.Pos()
@@ -631,4 +651,39 @@ func calleeMatches(key, suffix string) bool {
 		return true
 	}
 	return suffix[0] == '(' || suffix[0] == '<'
+}
+
+// siteOrdinal numbers the call sites of a callee (matched like callsite clauses match) inside the function
+// under verification by source position: 1 for the first in the text, 2 for the next, ...
+func (fx *FnExec) siteOrdinal(instr ssa.Instruction, calleeName string) int {
+	type site struct {
+		in  ssa.Instruction
+		pos token.Pos
+	}
+	var sites []site
+	for _, b := range fx.fn.Blocks {
+		for _, in := range b.Instrs {
+			ci, ok := in.(ssa.CallInstruction)
+			if !ok {
+				continue
+			}
+			c := ci.Common()
+			key := "<dynamic>"
+			if c.IsInvoke() {
+				key = ifaceMethodKey(c.Method)
+			} else if callee := c.StaticCallee(); callee != nil {
+				key = funcKey(callee)
+			}
+			if calleeMatches(key, calleeName) {
+				sites = append(sites, site{in, in.Pos()})
+			}
+		}
+	}
+	sort.SliceStable(sites, func(i, j int) bool { return sites[i].pos < sites[j].pos })
+	for i, s := range sites {
+		if s.in == instr {
+			return i + 1
+		}
+	}
+	return 0
 }
